@@ -151,67 +151,41 @@ mod v_iface_pollat {
         }
 
         // ------------------------------------------------------------------ combination of deadlines
-        fn combination_path(eth: bool, slaac_on: bool, tag: u8, with_tcp: bool) {
-            let mut dev = NullDev { medium: medium(eth), mtu: 1500, checksum: ChecksumCapabilities::ignored() };
-            let now = any_us(0, T_MAX);
+        // `Interface::poll_at` is a filter_map().min() over the socket set.  An iterator position that
+        // depends on symbolic data makes CBMC unroll every later `next()` to the unwinding bound (>= 17
+        // here, for 16-byte address comparisons), so: a one-slot set may hold a symbolic socket (the
+        // iterator always ends up at the end), a two-slot set gets concrete queue states per path.
+        macro_rules! comb_iface {
+            ($dev:ident, $iface:ident, $now:ident, $slaac_on:ident, $tag:ident, $max_tag:expr) => {
+                let eth: bool = kani::any();
+                let $slaac_on: bool = kani::any();
+                let mut $dev = NullDev { medium: medium(eth), mtu: 1500, checksum: ChecksumCapabilities::ignored() };
+                let $now = any_us(0, T_MAX);
+                let mut $iface = Interface::new(config(eth, $slaac_on), &mut $dev, us(0));
+                $iface.update_ip_addrs(|a| {
+                    a.push(IpCidr::Ipv6(Ipv6Cidr::new(LL, 64))).unwrap();
+                });
+                // advertisements and solicitations only touch `slaac` when it is enabled
+                let $tag: u8 = kani::any();
+                kani::assume($tag <= $max_tag);
+                if $slaac_on {
+                    slaac_history(&mut $iface, $now, $tag);
+                }
+            };
+        }
+
+        fn check_combination(iface: &mut Interface, sockets: &SocketSet<'_>, now: i64, slaac_on: bool) -> (Option<Instant>, Option<Instant>, Option<Instant>, Option<Instant>) {
             let nowi = us(now);
-            let mut iface = Interface::new(config(eth, slaac_on), &mut dev, us(0));
-            iface.update_ip_addrs(|a| {
-                a.push(IpCidr::Ipv6(Ipv6Cidr::new(LL, 64))).unwrap();
-            });
-            // advertisements and solicitations only touch `slaac` when it is enabled
-            if slaac_on {
-                slaac_history(&mut iface, now, tag);
-            }
-
-            // 0..=2 UDP sockets (queue empty: Ingress, non-empty: Now), optionally a TCP socket whose
-            // SYN went out at a symbolic instant (retransmission timer: Time(t))
-            let n_udp: u8 = kani::any();
-            kani::assume(n_udp <= 2);
-            let q0: bool = kani::any();
-            let q1: bool = kani::any();
-            udp_socket!(u0, 1000);
-            udp_socket!(u1, 1001);
-            let mut trx = [0u8; 4];
-            let mut ttx = [0u8; 4];
-            let mut storage = [SocketStorage::EMPTY, SocketStorage::EMPTY, SocketStorage::EMPTY];
-            let mut sockets = SocketSet::new(&mut storage[..]);
-            if q0 {
-                u0.send_slice(&[1, 2], IpEndpoint::new(IpAddress::Ipv6(PEER), 7)).unwrap();
-            }
-            if q1 {
-                u1.send_slice(&[3], IpEndpoint::new(IpAddress::Ipv6(PEER), 7)).unwrap();
-            }
-            if n_udp >= 1 {
-                sockets.add(u0);
-            }
-            if n_udp >= 2 {
-                sockets.add(u1);
-            }
-            if with_tcp {
-                let mut t0 = stcp::Socket::new(stcp::SocketBuffer::new(&mut trx[..]), stcp::SocketBuffer::new(&mut ttx[..]));
-                let t_syn = any_us(0, now);
-                iface.inner.now = us(t_syn);
-                t0.connect(&mut iface.inner, (IpAddress::Ipv6(PEER), 80u16), 4000u16).unwrap();
-                let _ = t0.dispatch(&mut iface.inner, |_cx, _pkt| -> core::result::Result<(), ()> { Ok(()) });
-                sockets.add(t0);
-            }
-
-            crate::vdump!("now={} medium={:?} slaac_enabled={} slaac={:?}", nowi, medium(eth), slaac_on, iface.inner.slaac);
-            let d_sock = sockets_deadline(&mut iface, &sockets, nowi);
+            crate::vdump!("now={} slaac_enabled={} slaac={:?}", nowi, slaac_on, iface.inner.slaac);
+            let d_sock = sockets_deadline(iface, sockets, nowi);
             let d_slaac = if slaac_on { iface.inner.slaac.poll_at(nowi) } else { None };
             let want = opt_min(d_sock, d_slaac);
-            let got = iface.poll_at(nowi, &sockets);
+            let got = iface.poll_at(nowi, sockets);
             crate::vdump!("sockets: {:?}  slaac: {:?}  expected min: {:?}  Interface::poll_at: {:?}", d_sock, d_slaac, want, got);
+            (d_sock, d_slaac, want, got)
+        }
 
-            // (witnesses first: a failing assertion cuts off the paths behind it)
-            kani::cover!(slaac_on && d_sock.is_none() && d_slaac.is_some(), "only SLAAC has a deadline");
-            kani::cover!(slaac_on && d_slaac.is_none() && d_sock.is_some(), "SLAAC idle, a socket has a deadline");
-            kani::cover!(slaac_on && with_tcp && n_udp == 0 && d_slaac.is_some() && d_sock.unwrap() > nowi && d_slaac.unwrap() > d_sock.unwrap(), "timed socket deadline before timed SLAAC deadline");
-            kani::cover!(!slaac_on && n_udp == 2 && q1 && !q0 && !with_tcp, "second of two UDP sockets due");
-            kani::cover!(tag == 4 && eth && d_slaac.is_some() && d_slaac.unwrap() > nowi, "router lifetime running");
-            kani::cover!(want.is_none() && n_udp == 2 && !with_tcp, "nothing scheduled");
-
+        fn assert_combination(want: Option<Instant>, got: Option<Instant>, nowi: Instant) {
             if want.is_some() {
                 assert!(got.is_some(), "prop:c13_iface_poll_at_keeps_finite_deadline");
             } else {
@@ -222,30 +196,84 @@ mod v_iface_pollat {
             }
         }
 
-        /// medium, Config.slaac, SLAAC history and presence of the TCP socket are concrete on each path
+        /// one slot: empty | UDP socket (queue empty: Ingress, non-empty: Now) | TCP socket whose SYN went
+        /// out at a symbolic instant (retransmission timer: Time(t))
         pub(super) fn combination_body() {
+            comb_iface!(dev, iface, now, slaac_on, tag, 4);
+            let nowi = us(now);
+            udp_socket!(u0, 1000);
+            let mut trx = [0u8; 4];
+            let mut ttx = [0u8; 4];
+            let mut storage = [SocketStorage::EMPTY];
+            let mut sockets = SocketSet::new(&mut storage[..]);
+            let kind: u8 = kani::any();
+            kani::assume(kind <= 2);
+            let q0: bool = kani::any();
+            if kind == 1 {
+                if q0 {
+                    u0.send_slice(&[1, 2], IpEndpoint::new(IpAddress::Ipv6(PEER), 7)).unwrap();
+                }
+                sockets.add(u0);
+            } else if kind == 2 {
+                let mut t0 = stcp::Socket::new(stcp::SocketBuffer::new(&mut trx[..]), stcp::SocketBuffer::new(&mut ttx[..]));
+                let t_syn = any_us(0, now);
+                iface.inner.now = us(t_syn);
+                t0.connect(&mut iface.inner, (IpAddress::Ipv6(PEER), 80u16), 4000u16).unwrap();
+                let _ = t0.dispatch(&mut iface.inner, |_cx, _pkt| -> core::result::Result<(), ()> { Ok(()) });
+                sockets.add(t0);
+            }
+            let (d_sock, d_slaac, want, got) = check_combination(&mut iface, &sockets, now, slaac_on);
+            // (witnesses first: a failing assertion cuts off the paths behind it)
+            kani::cover!(slaac_on && d_sock.is_none() && d_slaac.is_some(), "only SLAAC has a deadline");
+            kani::cover!(slaac_on && d_slaac.is_none() && d_sock.is_some(), "SLAAC idle, a socket has a deadline");
+            kani::cover!(slaac_on && kind == 2 && d_slaac.is_some() && d_sock.unwrap() > nowi && d_slaac.unwrap() > d_sock.unwrap(), "timed socket deadline before timed SLAAC deadline");
+            kani::cover!(slaac_on && kind == 2 && d_slaac.is_some() && d_slaac.unwrap() > nowi && d_slaac.unwrap() < d_sock.unwrap(), "timed SLAAC deadline before timed socket deadline");
+            kani::cover!(slaac_on && tag == 4 && d_slaac.is_some() && d_slaac.unwrap() > nowi && kind == 1, "router lifetime running");
+            kani::cover!(want.is_none() && kind == 1, "nothing scheduled");
+            assert_combination(want, got, nowi);
+        }
+
+        fn two_sockets_path(iface: &mut Interface, now: i64, slaac_on: bool, q0: bool, q1: bool) {
+            udp_socket!(u0, 1000);
+            udp_socket!(u1, 1001);
+            let mut storage = [SocketStorage::EMPTY, SocketStorage::EMPTY];
+            let mut sockets = SocketSet::new(&mut storage[..]);
+            if q0 {
+                u0.send_slice(&[1, 2], IpEndpoint::new(IpAddress::Ipv6(PEER), 7)).unwrap();
+            }
+            if q1 {
+                u1.send_slice(&[3], IpEndpoint::new(IpAddress::Ipv6(PEER), 7)).unwrap();
+            }
+            sockets.add(u0);
+            sockets.add(u1);
+            let (d_sock, d_slaac, want, got) = check_combination(iface, &sockets, now, slaac_on);
+            kani::cover!(!q0 && q1 && !slaac_on && got.is_some(), "second of two UDP sockets due, SLAAC off");
+            kani::cover!(!q0 && !q1 && want.is_none(), "two idle sockets, nothing scheduled");
+            kani::cover!(q0 && !q1 && slaac_on && d_slaac.is_some() && d_slaac.unwrap() > us(now), "first socket due before the SLAAC deadline");
+            assert_combination(want, got, us(now));
+        }
+
+        /// two UDP sockets; SLAAC disabled, or enabled and still soliciting (phases Start / Discovering: the
+        /// Maintaining arm of Slaac::poll_at costs ~5M clauses per call at this unwinding bound and is
+        /// covered by poll_at_combination)
+        pub(super) fn combination_two_body() {
+            comb_iface!(dev, iface, now, slaac_on, tag, 2);
             let shape: u8 = kani::any();
             match shape {
-                0 => combination_path(false, false, 0, false),
-                1 => combination_path(true, false, 0, true),
-                2 => combination_path(false, true, 0, false),
-                3 => combination_path(true, true, 1, false),
-                4 => combination_path(false, true, 1, true),
-                5 => combination_path(true, true, 2, false),
-                6 => combination_path(false, true, 3, true),
-                7 => combination_path(true, true, 3, false),
-                8 => combination_path(false, true, 4, true),
-                _ => combination_path(true, true, 4, false),
+                0 => two_sockets_path(&mut iface, now, slaac_on, false, true),
+                1 => two_sockets_path(&mut iface, now, slaac_on, true, false),
+                _ => two_sockets_path(&mut iface, now, slaac_on, false, false),
             }
         }
 
         // ------------------------------------------------------------------ poll vs poll_at on a real interface
-        // `slaac_on` (=> Ethernet, see the modelling note at the top), the SLAAC history and whether a
-        // datagram is queued are concrete on each path: `Interface::poll` repeats `poll_egress` until
-        // nothing was sent, and that loop must end by constant propagation (the unwinding bound has to
-        // be >= 17 for 16-byte address comparisons, far more than the 2 rounds a poll needs here).
+        // Medium and whether a datagram is queued are concrete on each path: `Interface::poll` repeats
+        // `poll_egress` (and `multicast_egress` repeats its search for pending joins) until nothing was
+        // sent; those loops carry whole dispatch_ip bodies and must end by constant propagation (the
+        // unwinding bound has to be >= 17 for 16-byte address comparisons).  SLAAC runs on Ethernet
+        // (modelling note at the top); its history is symbolic.
         macro_rules! poll_env {
-            ($dev:ident, $iface:ident, $sockets:ident, $now:ident, $slaac_on:expr, $tag:expr, $queued:expr) => {
+            ($dev:ident, $iface:ident, $sockets:ident, $now:ident, $slaac_on:expr, $tag:ident, $queued:expr) => {
                 let eth = $slaac_on;
                 let mut $dev = CapDev::<FRAME>::new(medium(eth), 1500, ChecksumCapabilities::ignored());
                 let $now = any_us(0, T_MAX);
@@ -256,6 +284,10 @@ mod v_iface_pollat {
                 // announce the solicited-node group now (outside C13), then start counting frames
                 $iface.multicast_egress(&mut $dev);
                 $dev.tx.frames = 0;
+                // histories without a stored route: with one, `sync_slaac_state` alone is beyond the memory
+                // budget at this unwinding bound (stored lifetimes are covered at `Slaac` level, iface_slaac.rs)
+                let $tag: u8 = kani::any();
+                kani::assume($tag <= 3);
                 if $slaac_on {
                     slaac_history(&mut $iface, $now, $tag);
                 }
@@ -271,7 +303,7 @@ mod v_iface_pollat {
             };
         }
 
-        fn nonspin_path(slaac_on: bool, tag: u8, queued: bool) {
+        fn nonspin_path(slaac_on: bool, queued: bool) {
             poll_env!(dev, iface, sockets, now, slaac_on, tag, queued);
             let nowi = us(now);
             crate::vdump!("PRE now={} slaac_enabled={} slaac={:?} udp_queued={}", nowi, slaac_on, iface.inner.slaac, queued);
@@ -279,11 +311,15 @@ mod v_iface_pollat {
             let frames = dev.tx.frames;
             let d = iface.poll_at(nowi, &sockets);
             crate::vdump!("POST frames={} poll={:?} slaac={:?} poll_at={:?} poll_delay={:?}", frames, res, iface.inner.slaac, d, iface.poll_delay(nowi, &sockets));
-            kani::cover!(frames == 0 && tag == 1, "idle poll while waiting for the solicitation interval");
-            kani::cover!(frames == 0 && tag == 2, "idle poll after the last solicitation");
-            kani::cover!(frames == 2 && queued && slaac_on, "router solicitation and datagram in one poll");
-            kani::cover!(frames == 0 && tag == 4 && d.is_some(), "idle poll with a router lifetime running");
-            kani::cover!(frames == 1 && !slaac_on, "datagram sent on Medium::Ip");
+            if slaac_on {
+                kani::cover!(frames == 0 && tag == 1, "idle poll while waiting for the solicitation interval");
+                kani::cover!(frames == 0 && tag == 2, "idle poll after the last solicitation");
+                kani::cover!(frames == 1 && tag == 0, "first router solicitation");
+                kani::cover!(frames == 0 && tag == 3 && d.is_none(), "idle poll, router known, nothing stored");
+            } else {
+                kani::cover!(frames == 1 && queued, "datagram sent on Medium::Ip");
+                kani::cover!(frames == 0 && d.is_none(), "idle interface without SLAAC");
+            }
             if frames == 0 {
                 // nothing received (rx_pending = false), nothing transmitted: the deadline lies ahead or is absent
                 assert!(d.is_none() || d.unwrap() > nowi, "prop:c13_iface_idle_poll_leaves_future_deadline");
@@ -295,22 +331,18 @@ mod v_iface_pollat {
         }
 
         pub(super) fn nonspin_body() {
-            let shape: u8 = kani::any();
-            match shape {
-                0 => nonspin_path(false, 0, false),
-                1 => nonspin_path(false, 0, true),
-                2 => nonspin_path(true, 0, true),
-                3 => nonspin_path(true, 1, false),
-                4 => nonspin_path(true, 2, false),
-                5 => nonspin_path(true, 3, false),
-                _ => nonspin_path(true, 4, false),
-            }
+            nonspin_path(true, false);
         }
 
-        fn early_path(slaac_on: bool, tag: u8) {
-            poll_env!(dev, iface, sockets, now, slaac_on, tag, false);
+        pub(super) fn nonspin_ip_body() {
+            if kani::any() { nonspin_path(false, true) } else { nonspin_path(false, false) }
+        }
+
+        /// (a queued datagram makes poll_at "now": no early instant exists, so the socket is idle here)
+        pub(super) fn early_body() {
+            poll_env!(dev, iface, sockets, now, true, tag, false);
             let nowi = us(now);
-            crate::vdump!("PRE now={} slaac_enabled={} slaac={:?}", nowi, slaac_on, iface.inner.slaac);
+            crate::vdump!("PRE now={} slaac={:?}", nowi, iface.inner.slaac);
             let d = iface.poll_at(nowi, &sockets);
             // any probe instant from `now` up to (excluding) the advertised deadline
             let t = any_us(now, T_MAX + RSI);
@@ -323,22 +355,9 @@ mod v_iface_pollat {
             let _ = iface.poll(us(t), &mut dev, &mut sockets);
             crate::vdump!("POST frames={} slaac={:?}", dev.tx.frames, iface.inner.slaac);
             kani::cover!(tag == 1 && t > now, "probe inside the solicitation interval");
-            kani::cover!(d.is_none() && !slaac_on, "no deadline at all");
-            kani::cover!(tag == 4 && d.is_some() && t > now, "probe before a router lifetime ends");
+            kani::cover!(tag == 3 && d.is_none(), "nothing stored: no deadline at all");
+            kani::cover!(tag == 2 && t > now, "probe after the last solicitation");
             assert!(dev.tx.frames == 0, "prop:c13_iface_nothing_sent_before_poll_at");
-        }
-
-        /// (a queued datagram makes poll_at "now": no early instant exists, so the socket is idle here)
-        pub(super) fn early_body() {
-            let shape: u8 = kani::any();
-            match shape {
-                0 => early_path(false, 0),
-                1 => early_path(true, 0),
-                2 => early_path(true, 1),
-                3 => early_path(true, 2),
-                4 => early_path(true, 3),
-                _ => early_path(true, 4),
-            }
         }
     }
 
@@ -356,21 +375,35 @@ mod v_iface_pollat {
         }
     }
 
-    // @harness props=C13 cfg=KI6 tier=q to=600 mem=8 unwind=18 opts=nomem covers=6 funcs=Interface::poll_at;Slaac::poll_at;Meta::poll_at;udp::Socket::poll_at;tcp::Socket::poll_at bounds=10_concrete_shapes_(Medium::Ip/Ethernet_x_Config.slaac_on/off_x_SLAAC_history_x_TCP_socket_present):_SLAAC_histories_Start_|_1..=2_solicitations_|_3_unanswered_solicitations_|_router_answer_with_lifetime_0_|_router_answer_with_lifetime_1us..=65535s,_all_at_symbolic_instants;_0..=2_UDP_sockets_(queue_empty/non-empty);_TCP_socket_in_SYN-SENT_with_its_retransmission_timer_at_a_symbolic_instant;_neighbor_state_Active;_now_<2^50_us
+    // @harness props=C13 cfg=KI6 tier=q to=600 mem=8 unwind=18 opts=nomem covers=6 funcs=Interface::poll_at;Slaac::poll_at;Meta::poll_at;udp::Socket::poll_at;tcp::Socket::poll_at bounds=Medium::Ip_or_Ethernet,_Config.slaac_on/off,_SLAAC_history_symbolic_(Start_|_1..=2_solicitations_|_3_unanswered_solicitations_|_router_answer_with_lifetime_0_|_router_answer_with_lifetime_1us..=65535s),_all_events_at_symbolic_instants;_one-slot_socket_set:_empty_|_UDP_socket_with_empty/non-empty_queue_|_TCP_socket_in_SYN-SENT_with_its_retransmission_timer_at_a_symbolic_instant;_neighbor_state_Active;_now_<2^50_us
     #[kani::proof]
     pub(crate) fn poll_at_combination() {
         #[cfg(feature = "proto-ipv6-slaac")]
         v6::combination_body();
     }
 
-    // @harness props=C13 cfg=KI6 tier=q to=900 mem=8 unwind=18 opts=nomem covers=5 funcs=Interface::poll;Interface::poll_at;Interface::poll_egress;Interface::poll_maintenance;Interface::ndisc_rs_egress;Interface::socket_egress;Interface::sync_slaac_state bounds=7_concrete_shapes:_Medium::Ip_without_SLAAC_(datagram_queued_or_not)_|_Ethernet_with_SLAAC_in_each_of_5_histories_(Start_with_a_queued_datagram;_1..=2_solicitations;_3_unanswered_solicitations;_router_lifetime_0;_router_lifetime_1us..=65535s_not_yet_synced),_events_at_symbolic_instants;_device_accepts_every_frame,_no_frame_pending;_one_UDP_socket,_2-byte_datagram_to_ff02::1;_fragmenter_empty;_multicast_joins_flushed;_now_<2^50_us
+    // @harness props=C13 cfg=KI6 tier=q to=600 mem=8 unwind=18 opts=nomem covers=3 funcs=Interface::poll_at;Slaac::poll_at;Meta::poll_at;udp::Socket::poll_at bounds=Medium::Ip_or_Ethernet,_Config.slaac_on/off,_SLAAC_history_symbolic_(Start_|_1..=2_solicitations_|_3_unanswered_solicitations_|_router_answer_with_lifetime_0)_cut_to_the_soliciting_phases_(Start_|_1..=2_solicitations_|_3_unanswered_solicitations);_two_UDP_sockets,_3_concrete_queue_shapes_(idle+due,_due+idle,_idle+idle);_neighbor_state_Active;_now_<2^50_us
+    #[kani::proof]
+    pub(crate) fn poll_at_combination_two() {
+        #[cfg(feature = "proto-ipv6-slaac")]
+        v6::combination_two_body();
+    }
+
+    // @harness props=C13 cfg=KI6 tier=q to=900 mem=8 unwind=18 opts=nomem covers=4 funcs=Interface::poll;Interface::poll_at;Interface::poll_egress;Interface::poll_maintenance;Interface::ndisc_rs_egress;Interface::socket_egress;Interface::sync_slaac_state bounds=Ethernet_with_SLAAC_enabled,_SLAAC_history_symbolic_(Start_|_1..=2_solicitations_|_3_unanswered_solicitations_|_router_answer_with_lifetime_0),_events_at_symbolic_instants,_no_stored_route/prefix;_device_accepts_every_frame,_no_frame_pending;_one_idle_UDP_socket;_fragmenter_empty;_multicast_joins_flushed;_now_<2^50_us
     #[kani::proof]
     pub(crate) fn poll_nonspin_iface() {
         #[cfg(feature = "proto-ipv6-slaac")]
         v6::nonspin_body();
     }
 
-    // @harness props=C13 cfg=KI6 tier=q to=900 mem=8 unwind=18 opts=nomem covers=3 funcs=Interface::poll;Interface::poll_at;Interface::poll_egress;Interface::ndisc_rs_egress;Interface::socket_egress bounds=6_concrete_shapes:_Medium::Ip_without_SLAAC_|_Ethernet_with_SLAAC_in_each_of_5_histories;_idle_UDP_socket;_deadline_taken_at_now,_poll_at_any_probe_instant_in_[now,deadline)
+    // @harness props=C13 cfg=KI6 tier=q to=900 mem=8 unwind=18 opts=nomem covers=2 funcs=Interface::poll;Interface::poll_at;Interface::poll_egress;Interface::socket_egress;udp::Socket::dispatch bounds=Medium::Ip,_SLAAC_disabled;_device_accepts_every_frame,_no_frame_pending;_one_UDP_socket_with_0..=1_queued_2-byte_datagram;_fragmenter_empty;_now_<2^50_us
+    #[kani::proof]
+    pub(crate) fn poll_nonspin_iface_ip() {
+        #[cfg(feature = "proto-ipv6-slaac")]
+        v6::nonspin_ip_body();
+    }
+
+    // @harness props=C13 cfg=KI6 tier=q to=900 mem=8 unwind=18 opts=nomem covers=3 funcs=Interface::poll;Interface::poll_at;Interface::poll_egress;Interface::ndisc_rs_egress;Interface::socket_egress bounds=same_interface_as_poll_nonspin_iface;_deadline_taken_at_now,_poll_at_any_probe_instant_in_[now,deadline)
     #[kani::proof]
     pub(crate) fn poll_early_iface() {
         #[cfg(feature = "proto-ipv6-slaac")]
